@@ -133,3 +133,44 @@ Proof. vm_compute. split; reflexivity. Qed.
    be 0); a proof needs a fuel bound for the relations, not done. *)
 Definition C10_pratt_roundtrip_ample_fuel_full : Prop :=
   forall par wn t, wf t = true -> pratt_impl (spec_render par wn t) = Ok (Some t).
+
+(* ---------------------------------------------------------------------------------------------
+   Names.  Model: C10Ident.v — the grammar rules identifier / identifier_rest / reserved_word /
+   bool / null as PEG matchers and the ordered choice among bool / null / identifier in `term`;
+   the reserved-word list, the presence of the word-boundary look-ahead on bool / null and the
+   order of the alternatives are GENERATED from grammar.pest (gen/IdentRules.v). *)
+Require Import Blots.C10Ident Blots.gen.IdentRules Blots.C10IdentImpl Blots.proofs.C10IdentProofs.
+
+(* P1  Every name made of letters, digits and underscores (not starting with a digit) other than the
+   reserved words, followed by the end of input or a character that cannot continue a name, is
+   read whole as `identifier` by the ordered choice of `term` — unless it extends true / false /
+   null (class of the open finding C10-bool-null-prefix) while bool / null lack the look-ahead.
+   Symbolic in the name: unbounded. *)
+Theorem C10_ident_rule : forall s rest,
+  valid_name s = true -> is_reserved reserved_words s = false -> boundary rest = true ->
+  (known_C10 s = false \/ (bool_boundary = true /\ null_boundary = true)) ->
+  term_word_impl (s ++ rest) = Some (AIdent, rest).
+Proof. exact ident_rule_impl. Qed.
+Check C10_ident_rule : forall s rest,
+  valid_name s = true -> is_reserved reserved_words s = false -> boundary rest = true ->
+  (known_C10 s = false \/ (bool_boundary = true /\ null_boundary = true)) ->
+  term_word_impl (s ++ rest) = Some (AIdent, rest).
+Print Assumptions C10_ident_rule.
+
+Example ident_rule_hyps : valid_name "iffy_2" = true /\ is_reserved reserved_words "iffy_2" = false /\
+                          boundary "(1)" = true /\ known_C10 "iffy_2" = false.
+Proof. vm_compute. repeat split. Qed.
+
+(* The statement without the exclusion (the property as written) ... *)
+Definition C10_ident_rule_full : Prop := ident_rule_full.
+(* ... is REFUTED by the faithful model as long as `bool` has no word boundary (witness `trueish + 1`:
+   the literal `true` matches and `ish + 1` is left over); with the proposed fix
+   (fixes/C10-bool-null-word-boundary.diff) the generated flags become true, this lemma becomes
+   vacuous and C10_ident_rule covers every name. *)
+Lemma C10_ident_rule_full_refuted : bool_boundary = false -> ~ C10_ident_rule_full.
+Proof. exact ident_rule_full_refuted. Qed.
+Lemma C10_ident_refuted_witness : bool_boundary = false ->
+  term_word_impl "trueish + 1" = Some (ABool, "ish + 1").
+Proof. exact ident_refuted_witness. Qed.
+Lemma C10_ident_rule_full_when_fixed : bool_boundary = true -> null_boundary = true -> C10_ident_rule_full.
+Proof. exact ident_rule_full_when_guarded. Qed.
